@@ -88,3 +88,57 @@ impl ScopeId {
 pub assume_specification<'a, T>[Option::<&T>::copied](o: Option<&'a T>) -> (r: Option<T>)
     where T: Copy
     ensures r == (match o { Some(t) => Some(*t), None => None::<T> });
+
+// ---- C08 (one rule): what verify_lifecycle_of_singleton_dependencies reads and writes ---------------------------------
+use core::marker::PhantomData;
+use vstd::std_specs::cmp::PartialEqSpecImpl;
+/// An iterator as a ghost sequence of what it has yet to yield (rule N21 writes `for` out as `while let Some(..) = it.next()`)
+#[verifier::external_body] #[verifier::accept_recursive_types(T)]
+pub struct VerifIter<T> { _k: PhantomData<T> }
+impl<T> View for VerifIter<T> { type V = Seq<T>; uninterp spec fn view(&self) -> Seq<T>; }
+impl<T> VerifIter<T> {
+    #[verifier::external_body]
+    pub fn next(&mut self) -> (r: Option<T>)
+        ensures match r {
+            Some(x) => old(self)@.len() > 0 && x == old(self)@[0] && final(self)@ == old(self)@.drop_first(),
+            None => old(self)@.len() == 0 && final(self)@ == old(self)@,
+        }
+    { unimplemented!() }
+}
+#[verifier::external_body] pub struct Component { _p: u8 }
+#[verifier::external_body] pub struct ComponentDb { _p: u8 }
+#[verifier::external_body] pub struct ComputationDb { _p: u8 }
+#[verifier::external_body] pub struct HydratedComponent<'a> { _p: PhantomData<&'a u8> }
+pub uninterp spec fn db_ids(db: &ComponentDb) -> Seq<ComponentId>;
+pub uninterp spec fn lifecycle_of(db: &ComponentDb, id: ComponentId) -> Lifecycle;
+pub uninterp spec fn scope_of(db: &ComponentDb, id: ComponentId) -> ScopeId;
+pub uninterp spec fn db_graph(db: &ComponentDb) -> &ScopeGraph;
+/// the input types of a component, in parameter order
+pub uninterp spec fn inputs_of<'a>(db: &'a ComponentDb, id: ComponentId) -> Seq<&'a Type>;
+pub uninterp spec fn hydrated_id<'a>(h: &HydratedComponent<'a>) -> ComponentId;
+pub uninterp spec fn hydrated_db<'a>(h: &HydratedComponent<'a>) -> &'a ComponentDb;
+impl ComponentDb {
+    #[verifier::external_body]
+    pub fn iter(&self) -> (r: VerifIter<(ComponentId, &Component)>)
+        ensures r@.len() == db_ids(self).len(), forall |i: int| 0 <= i < db_ids(self).len() ==> (#[trigger] r@[i]).0 == db_ids(self)[i]
+    { unimplemented!() }
+    #[verifier::external_body] pub fn lifecycle(&self, id: ComponentId) -> (r: Lifecycle) ensures r == lifecycle_of(self, id) { unimplemented!() }
+    #[verifier::external_body] pub fn scope_id(&self, id: ComponentId) -> (r: ScopeId) ensures r == scope_of(self, id) { unimplemented!() }
+    #[verifier::external_body] pub fn scope_graph(&self) -> (r: &ScopeGraph) ensures r == db_graph(self) { unimplemented!() }
+    #[verifier::external_body]
+    pub fn hydrated_component<'a, 'b: 'a>(&'a self, id: ComponentId, computation_db: &'b ComputationDb) -> (r: HydratedComponent<'a>)
+        ensures hydrated_id(&r) == id, hydrated_db(&r) == self { unimplemented!() }
+}
+impl<'a> HydratedComponent<'a> {
+    /// `Vec<&Type>` iterated by value: the input types in order
+    #[verifier::external_body] pub fn input_types(&self) -> (r: VerifIter<&'a Type>)
+        ensures r@ == inputs_of(hydrated_db(self), hydrated_id(self)) { unimplemented!() }
+}
+#[verifier::external_body] pub struct DiagnosticSink { _p: u8 }
+pub uninterp spec fn errors(d: &DiagnosticSink) -> nat;
+impl ConstructibleDb {
+    /// ASSUMED (diagnostic text): pushes exactly one error diagnostic
+    #[verifier::external_body]
+    pub fn singleton_must_not_depend_on_request_scoped(singleton_id: ComponentId, dependency_id: ComponentId, component_db: &ComponentDb, computation_db: &ComputationDb, diagnostics: &mut DiagnosticSink)
+        ensures errors(final(diagnostics)) == errors(old(diagnostics)) + 1 { unimplemented!() }
+}
